@@ -55,6 +55,10 @@ def run_atom(prog, rep, funcs, rule="ATOM", floor_funcs=0, floor_paths=0):
         r = A.analyse(f)
         total_paths += r["paths"]
         own = [fd for fd in r["findings"] if fd.kind == "own"]
+        if f.name.startswith("_") and not f.name.startswith("__") and f.kind in ("method", "function", "static", "classmethod"):
+            # a private helper is not an operation of the API: what it leaves behind is judged at its public callers, where its
+            # writes and late refusals arrive through the summaries
+            own = []
         groups = {}
         for fd in own:
             groups.setdefault("%s|%s" % (fd.func.short, fd.via()), []).append(fd)
@@ -66,11 +70,13 @@ def run_atom(prog, rep, funcs, rule="ATOM", floor_funcs=0, floor_paths=0):
             fd = fds[0]
             origins = sorted(set("%s@%s" % (x.site.exc, x.site.origin[0]) for x in fds))
             w = fd.writes[0]
+            sig = {"func": f.short, "write": "%s.%s:%s" % (w.origin[0] + ("/" + w.origin[1] if w.origin[1] else ""), w.field, w.op),
+                   "exc": sorted(set(x.site.exc for x in fds))}
             rep.fail(rule, key,
                      "%s: after the write %s.%s (%s, `%s` in %s) the call `%s` can still refuse with %s  [path %s]"
                      % (f.short, w.origin[0] + ("/" + w.origin[1] if w.origin[1] else ""), w.field, w.op, w.text[:50], w.func,
                         fd.via(), ", ".join(origins[:6]), fd.path_lines[-90:]),
-                     f.where, witness="make `%s` fail in that state: the exception leaves %s changed" % (fd.via(), w.field))
+                     f.where, witness="make `%s` fail in that state: the exception leaves %s changed" % (fd.via(), w.field), signature=sig)
     rep.analysed["paths"] += total_paths
     rep.trusted += [{"id": c["id"], "reason": c["reason"], "obligations": c["obligations"], "derived": c["derived"]}
                     for c in ATOM_CONTRACTS]
